@@ -1035,6 +1035,12 @@ func (x *Exec) specEnvAt(b *ssa.BasicBlock, rp *retPoint) *SpecEnv {
 					break
 				}
 				if phi.Comment != "" {
+					// never over a definition found on the dominator chain: an assignment
+					// made after the loop head (`found = false` at the top of the body) is
+					// later than the head's phi
+					if _, dup := env.vars[phi.Comment]; dup {
+						continue
+					}
 					if v, ok := x.vals[phi]; ok {
 						env.vars[phi.Comment] = SpecVal{V: v, Go: phi.Type()}
 					}
